@@ -466,6 +466,9 @@ namespace {
 
    std::set<const void*> constants;
    std::vector<std::string> reference[2][NPROG][sched::MAXT];        // [shape][prog][salt] -> trace when run alone
+   // what a FRESH thread that runs the program alone has allocated and not released when the program is over: zero, unless the
+   // library keeps something per thread until the thread ends (an immutable thread_local table built on first use is not a defect)
+   long long alone_blocks[2][NPROG][sched::MAXT] = { }, alone_bytes[2][NPROG][sched::MAXT] = { };
 
    std::string config_text(const Config& c)
    {
@@ -507,8 +510,10 @@ namespace {
             auto clip = [&](const std::string& s) { std::string c = s.substr(i > 20 ? i - 20 : 0, 60); for (auto& ch : c) if (ch == '\n') ch = '|'; return c; };
             rep.violation("C20:trace-differs-from-sequential:" + prog, rank, "thread " + std::to_string(t) + " (" + prog + ") observed something else than when run alone, at byte " + std::to_string(i) + ": '" + clip(r.trace) + "' instead of '" + clip(w) + "'" + where, witness);
          }
-         if (r.balance_blocks != 0 or r.balance_bytes != 0)
-            rep.violation("C20:allocation-crosses-threads:" + prog, rank, "thread " + std::to_string(t) + " (" + prog + ") ends with " + std::to_string(r.balance_blocks) + " blocks / " + std::to_string(r.balance_bytes) + " bytes it allocated but did not release (or released without allocating)" + where, witness);
+         const long long ab = alone_blocks[cfg.shape][cfg.progs[t]][t], ay = alone_bytes[cfg.shape][cfg.progs[t]][t];
+         if (r.balance_blocks != ab or r.balance_bytes != ay)
+            rep.violation("C20:allocation-crosses-threads:" + prog, rank, "thread " + std::to_string(t) + " (" + prog + ") ends with " + std::to_string(r.balance_blocks) + " blocks / " + std::to_string(r.balance_bytes) + " bytes it allocated but did not release (or released without allocating); a fresh thread running the same program alone ends with "
+                          + std::to_string(ab) + " / " + std::to_string(ay) + where, witness);
          sig += std::to_string(vf::fnv(r.trace) % 100000) + ":" + std::to_string(r.balance_blocks) + ";";
       }
       if (cfg.shape == 0)
@@ -605,6 +610,16 @@ namespace {
                                 vf::JObj{}.str("pass", "C20").raw("ops", vf::jarr(std::vector<long long>{ 3, shape, p, salt })).raw("schedule", "[]").done());
                if (a.balance_blocks != 0) { sched::Quiet q; /* one-time runtime allocations are absorbed by the first run */ }
                reference[shape][p][salt] = { a.trace };
+               // the same program alone on a fresh thread, twice (the two must agree: the residue is a property of "a thread", not of the first one)
+               ThreadResult f1, f2;
+               prepare(f1); prepare(f2);
+               { std::thread th([&] { body(shape, p, salt, f1); }); th.join(); }
+               { std::thread th([&] { body(shape, p, salt, f2); }); th.join(); }
+               if (f1.trace != a.trace or f2.trace != a.trace or f1.balance_blocks != f2.balance_blocks or f1.balance_bytes != f2.balance_bytes)
+                  rep.violation(std::string("C20:second-run-alone-differs:") + program_name[p], p, std::string("running ") + program_name[p] + " alone on a fresh thread, twice, observes or retains two different things",
+                                vf::JObj{}.str("pass", "C20").raw("ops", vf::jarr(std::vector<long long>{ 3, shape, p, salt })).raw("schedule", "[]").done());
+               alone_blocks[shape][p][salt] = f2.balance_blocks;
+               alone_bytes[shape][p][salt] = f2.balance_bytes;
             }
    }
 #endif
